@@ -25,14 +25,17 @@ var run *ev.Run
 func TestMain(m *testing.M) {
 	run = ev.Start("C06", "exploration",
 		"rapid draws a load graph: 1-4 packages (//, //p1, //p2, //p1/q), each BUILD.dawn loading 0-3 of 0-5 helper modules in //lib, helpers loading "+
-			"other helpers (chains, diamonds, helpers shared by several packages that themselves load further modules, self-loads, 2- and n-cycles), one "+
+			"other helpers (chains, diamonds, helpers shared by several packages that themselves load further modules, self-loads, 2- and n-cycles), BUILD files "+
+			"loading other packages' BUILD files and rings of 4-5 modules running through two packages, one "+
 			"target and optionally one flag per package; and a schedule for the cooperative token scheduler over the scheduling points of package and "+
 			"module loading (or a delay table for free-running loads). The real dawn.Load runs on generated files. Oracle: Load returns (no confirmed "+
 			"deadlock, no livelock); ModuleLoading is reported at most once per module; acyclic graph => no error and exactly the expected targets and "+
 			"flags; cyclic graph reachable from a BUILD file => Load fails and the error names a cyclic dependency. Non-trivial = a loader arrived at a "+
 			"module that was registered but not yet loaded, or the graph has a cycle of length >= 3. Additionally a catalogue of five small graphs (cross-package "+
 			"2- and 3-rings, shared helpers, acyclic controls) is loaded thousands of times free-running with the package loaders aligned by a barrier builtin "+
-			"(and a generated skew), to reach races in windows without a scheduling point; deadlocks are confirmed from stack dumps. Distinct by case JSON.",
+			"(and a generated skew), to reach races in windows without a scheduling point; deadlocks are confirmed from stack dumps. A catalogue of eight "+
+			"small graphs (2-rings, BUILD files loading each other, 4- and 5-rings through two packages, acyclic controls) is run under EVERY "+
+			"run-until-block schedule with one (quick) / two (thorough) preemptions. Distinct by case JSON.",
 		"Starlark execution between two load statements is atomic under the cooperative scheduler",
 	)
 	ev.Main(m, run)
@@ -73,39 +76,66 @@ func (e *events) ModuleLoading(l *label.Label) {
 	e.mu.Unlock()
 }
 
-// cycleInfo: is a helper cycle reachable from some BUILD file, and the longest simple cycle length found.
+// Module references in Pkgs/Helpers: k >= 0 is helper k (//lib:hk.dawn); 100+j is the BUILD.dawn of
+// package j loaded as a module.
+func (c *Case) loadsOf(node int) []int {
+	if node >= 100 {
+		if node-100 < len(c.Pkgs) {
+			return c.Pkgs[node-100]
+		}
+		return nil
+	}
+	if node < len(c.Helpers) {
+		return c.Helpers[node]
+	}
+	return nil
+}
+
+func (c *Case) valid(node int) bool {
+	if node >= 100 {
+		return node-100 < len(c.Pkgs)
+	}
+	return node >= 0 && node < len(c.Helpers)
+}
+
+// cycle: is a load cycle reachable from some BUILD file, and the longest cycle length found.
 func (c *Case) cycle() (bool, int) {
 	color := map[int]int{}
 	depth := map[int]int{}
 	found, length := false, 0
-	var visit func(h, d int)
-	visit = func(h, d int) {
-		if h >= len(c.Helpers) {
+	var visit func(n, d int)
+	visit = func(n, d int) {
+		if !c.valid(n) {
 			return
 		}
-		switch color[h] {
+		switch color[n] {
 		case 1:
 			found = true
-			if l := d - depth[h]; l > length {
+			if l := d - depth[n]; l > length {
 				length = l
 			}
 			return
 		case 2:
 			return
 		}
-		color[h] = 1
-		depth[h] = d
-		for _, x := range c.Helpers[h] {
+		color[n] = 1
+		depth[n] = d
+		for _, x := range c.loadsOf(n) {
 			visit(x, d+1)
 		}
-		color[h] = 2
+		color[n] = 2
 	}
-	for _, loads := range c.Pkgs {
-		for _, h := range loads {
-			visit(h, 0)
-		}
+	for p := range c.Pkgs {
+		visit(100+p, 0)
 	}
 	return found, length
+}
+
+func loadStmt(ref int, alias string) string {
+	if ref >= 100 {
+		return fmt.Sprintf("load(%q, %s=\"V\")\n", pkgPaths[ref-100]+":BUILD.dawn", alias)
+	}
+	return fmt.Sprintf("load(\"//lib:h%d.dawn\", %s=\"H%d\")\n", ref, alias, ref)
 }
 
 func (c *Case) write(dir string) {
@@ -114,11 +144,13 @@ func (c *Case) write(dir string) {
 	for i, loads := range c.Helpers {
 		var b strings.Builder
 		sum := "1"
-		for _, h := range loads {
-			fmt.Fprintf(&b, "load(\"//lib:h%d.dawn\", X%d_%d=\"H%d\")\n", h, i, h, h)
-		}
-		for _, h := range loads {
-			sum += fmt.Sprintf(" + X%d_%d", i, h)
+		for k, h := range loads {
+			if !c.valid(h) {
+				continue
+			}
+			alias := fmt.Sprintf("X%d_%d", i, k)
+			b.WriteString(loadStmt(h, alias))
+			sum += " + " + alias
 		}
 		fmt.Fprintf(&b, "H%d = %s\n", i, sum)
 		os.WriteFile(filepath.Join(dir, "lib", fmt.Sprintf("h%d.dawn", i)), []byte(b.String()), 0o644)
@@ -129,8 +161,12 @@ func (c *Case) write(dir string) {
 		var b strings.Builder
 		uses := "0"
 		for k, h := range loads {
-			fmt.Fprintf(&b, "load(\"//lib:h%d.dawn\", Y%d=\"H%d\")\n", h, k, h)
-			uses += fmt.Sprintf(" + Y%d", k)
+			if !c.valid(h) || h == 100+i {
+				continue
+			}
+			alias := fmt.Sprintf("Y%d", k)
+			b.WriteString(loadStmt(h, alias))
+			uses += " + " + alias
 		}
 		if i < len(c.Flags) && c.Flags[i] {
 			fmt.Fprintf(&b, "FL = parse_flag(\"fl\", default=\"d\")\n")
@@ -250,24 +286,26 @@ func exec(c Case) (v ev.Verdict) {
 	}
 	// every reachable helper was executed exactly once
 	reach := map[int]bool{}
-	var walk func(h int)
-	walk = func(h int) {
-		if reach[h] {
+	var walk func(n int)
+	walk = func(n int) {
+		if reach[n] || !c.valid(n) {
 			return
 		}
-		reach[h] = true
-		for _, x := range c.Helpers[h] {
+		reach[n] = true
+		for _, x := range c.loadsOf(n) {
 			walk(x)
 		}
 	}
-	for _, loads := range c.Pkgs {
-		for _, h := range loads {
-			walk(h)
-		}
+	for p := range c.Pkgs {
+		walk(100 + p)
 	}
-	for h := range reach {
-		if evs.loading[fmt.Sprintf("module://lib:h%d.dawn", h)] != 1 {
-			return ev.Failf("module-not-loaded-once", "helper h%d is reachable but was executed %d times (events: %v)", h, evs.loading[fmt.Sprintf("module://lib:h%d.dawn", h)], evs.loading)
+	for n := range reach {
+		l := fmt.Sprintf("module://lib:h%d.dawn", n)
+		if n >= 100 {
+			l = "module:" + pkgPaths[n-100] + ":BUILD.dawn"
+		}
+		if evs.loading[l] != 1 {
+			return ev.Failf("module-not-loaded-once", "%s is reachable but was executed %d times (events: %v)", l, evs.loading[l], evs.loading)
 		}
 	}
 	return v
@@ -332,6 +370,33 @@ func gen(t *rapid.T) Case {
 		}
 		c.Pkgs = append(c.Pkgs, loads)
 		c.Flags = append(c.Flags, rapid.IntRange(0, 2).Draw(t, "flag") == 2)
+	}
+	// BUILD files may also load each other (and helpers may load a BUILD file): the module of a
+	// package is then registered by whichever loader goroutine gets there first
+	for p := 0; p < np; p++ {
+		if np > 1 && rapid.IntRange(0, 3).Draw(t, "pkgload") == 3 {
+			q := rapid.IntRange(0, np-1).Draw(t, "pkgdep")
+			if q != p && (!acyclic || q > p) {
+				c.Pkgs[p] = append(c.Pkgs[p], 100+q)
+			}
+		}
+	}
+	if !acyclic && nh > 0 && np > 1 && rapid.IntRange(0, 3).Draw(t, "hpkg") == 3 {
+		h := rapid.IntRange(0, nh-1).Draw(t, "hfrom")
+		c.Helpers[h] = append(c.Helpers[h], 100+rapid.IntRange(0, np-1).Draw(t, "hto"))
+	}
+	if np >= 2 && nh >= 2 && rapid.IntRange(0, 7).Draw(t, "longring") == 6 {
+		// a ring of four or more modules through two packages: p0 -> p1 -> h0 -> h1 [-> h2] -> p0
+		c.Pkgs[0] = append([]int{101}, c.Pkgs[0]...)
+		c.Pkgs[1] = append([]int{0}, c.Pkgs[1]...)
+		last := 1
+		if nh >= 3 && rapid.Bool().Draw(t, "ring5") {
+			last = 2
+		}
+		for h := 0; h < last; h++ {
+			c.Helpers[h] = append([]int{h + 1}, c.Helpers[h]...)
+		}
+		c.Helpers[last] = append([]int{100}, c.Helpers[last]...)
 	}
 	c.Pol = rungraph.GenPolicy(t, 3)
 	return c
@@ -478,6 +543,87 @@ func TestC06Aligned(t *testing.T) {
 		}
 		return AlignedCase{Graph: i % len(alignedGraphs), Iter: i/len(alignedGraphs) + 100000*run.Shard, Spin: (i / len(alignedGraphs) % 7) * 40}, true
 	}, execAligned)
+}
+
+// catalogue of small load graphs for the bounded-exhaustive schedule enumeration
+var catalogue = []Case{
+	{Pkgs: [][]int{{0}, {1}}, Helpers: [][]int{{1}, {0}}},                         // two packages, helpers in a 2-ring
+	{Pkgs: [][]int{{101}, {100}}, Helpers: nil},                                   // two BUILD files loading each other
+	{Pkgs: [][]int{{101}, {0}}, Helpers: [][]int{{1}, {100}}},                     // 4-ring through two packages: p0 -> p1 -> h0 -> h1 -> p0
+	{Pkgs: [][]int{{101}, {0}}, Helpers: [][]int{{1}, {2}, {100}}},                // 5-ring
+	{Pkgs: [][]int{{0}, {1}, {2}}, Helpers: [][]int{{1}, {2}, {0}}},               // three packages entering a 3-ring
+	{Pkgs: [][]int{{0}, {1}}, Helpers: [][]int{{1}, {2}, {}}},                     // acyclic: shared chain entered at two points
+	{Pkgs: [][]int{{0, 1}, {1, 0}}, Helpers: [][]int{{2}, {2}, {}}},               // acyclic: diamond from two packages
+	{Pkgs: [][]int{{101, 0}, {0}}, Helpers: [][]int{{}}},                          // acyclic: BUILD loads BUILD, shared helper
+}
+
+// TestC06Exhaustive runs every catalogue graph under EVERY run-until-block schedule with one
+// (quick) or two (thorough) preemptions: step numbers up to the length of the unpreempted load,
+// every choice of the goroutine to switch to.
+func TestC06Exhaustive(t *testing.T) {
+	maxK := 1
+	if !run.Quick() {
+		maxK = 2
+	}
+	var all []Case
+	for gi, g := range catalogue {
+		maxK := maxK
+		if gi == 2 || gi == 3 {
+			maxK = 2 // the long rings through two packages get two preemptions in the quick tier as well
+		}
+		g.Flags = make([]bool, len(g.Pkgs))
+		base := g
+		base.Pol = cosched.Policy{Mode: "preempt"}
+		steps := loadSteps(base) + 3
+		all = append(all, base)
+		for s1 := 1; s1 <= steps; s1++ {
+			for c1 := 0; c1 < 3; c1++ {
+				x := g
+				x.Pol = cosched.Policy{Mode: "preempt", Preempt: []int{s1}, Choices: []int{c1}}
+				all = append(all, x)
+				if maxK >= 2 {
+					for s2 := s1 + 1; s2 <= steps; s2++ {
+						for c2 := 0; c2 < 2; c2++ {
+							y := g
+							y.Pol = cosched.Policy{Mode: "preempt", Preempt: []int{s1, s2}, Choices: []int{c1, c2}}
+							all = append(all, y)
+						}
+					}
+				}
+			}
+		}
+	}
+	i := -1
+	ev.Enumerate(run, t, "catalogue", func() (Case, bool) {
+		for {
+			i++
+			if i >= len(all) {
+				return Case{}, false
+			}
+			if i%run.NShards == run.Shard {
+				return all[i], true
+			}
+		}
+	}, exec)
+	run.Extra("exhaustive_catalogue_schedules", len(all))
+	run.Extra("exhaustive_max_preemptions", maxK)
+	run.SetExhaustive(true)
+}
+
+// loadSteps returns the number of scheduling points of an unpreempted load of the case.
+func loadSteps(c Case) int {
+	dir, err := os.MkdirTemp("", "c06s-")
+	if err != nil {
+		return 60
+	}
+	defer os.RemoveAll(dir)
+	c.write(dir)
+	s := cosched.New(c.Pol)
+	s.Install()
+	s.Go("load", func() { dawn.Load(dir, &dawn.LoadOptions{}) })
+	s.Wait(20 * time.Second)
+	cosched.Uninstall()
+	return s.Steps
 }
 
 func TestC06(t *testing.T) {
